@@ -1,5 +1,6 @@
 import Verif.Model.Flatten
 import Verif.Model.JsonIO
+import Verif.Model.KeysApart
 
 /- driver-side glue for the `phases` stream: runs the model of one Flatten phase on the state the
    implementation was in before that phase (I/O glue; no theorem depends on it) -/
@@ -94,7 +95,12 @@ def run (fc : Facts) (inp : J) : J :=
     if st.getStr "name" = "stripOAIGen" then stripAlternatives fc x s else
     if st.getStr "name" = "pipeline" then JsonIO.outcome encSt (flatten fc x o 32 s) else
     match runPhase fc x o (st.getStr "name") s with
-    | some r => JsonIO.outcome encSt r
+    | some r =>
+      -- hypothesis of the order-independence theorems of C07 (`keysApartB`), measured on the index the
+      -- phase ranges over
+      (match JsonIO.outcome encSt r with
+       | .obj kvs => .obj (kvs ++ [("keysApart", .bool (Replace.keysApartB (allRefs s.idx)))])
+       | j => j)
     | none => .obj [("notModelled", .str (st.getStr "name"))])
 
 end PhasesDriver
